@@ -20,6 +20,15 @@ void __CPROVER_assume(_Bool);
 void __CPROVER_assert(_Bool, const char*);
 #define __VX_ASSERT(c, d) __CPROVER_assert(c, "VX-INTERNAL: " d)
 #endif
+/* relational pointer comparison: inside one object compare (signed) offsets, so that a pointer one-before / one-past the object
+ * orders as on the hardware without CBMC's pointer-relation check firing on it; across objects compare the integer encodings */
+#ifdef VX_NATIVE
+#define __VX_PCMP(a, op, b) ((uintptr_t)(a) op (uintptr_t)(b))
+#else
+#define __VX_PCMP(a, op, b) (__CPROVER_POINTER_OBJECT((const void*)(a)) == __CPROVER_POINTER_OBJECT((const void*)(b)) \
+   ? ((__CPROVER_ssize_t)__CPROVER_POINTER_OFFSET((const void*)(a)) op (__CPROVER_ssize_t)__CPROVER_POINTER_OFFSET((const void*)(b))) \
+   : ((uintptr_t)(a) op (uintptr_t)(b)))
+#endif
 /* exception state: one exception in flight, a small stack of caught ones */
 static int __vx_pending;
 static void* __vx_exc_obj; static void* __vx_exc_type; static void* __vx_exc_dtor;
